@@ -124,11 +124,15 @@ pub fn op_node(name: &'static str, inner: VS, cfg: &Cfg) -> VS {
         "+" | "cat" | "merge" => list(name, vec(i, 0..=4).boxed()),
         "*" | "max" | "min" => list(name, vec(i, 1..=4).boxed()),
         "-" => list(name, vec(i, 1..=2).boxed()),
-        "substr" => prop_oneof![
-            (inner.clone(), super::ints()).prop_map(move |(s, a)| wrap(name, json!([s, a]))),
-            (inner.clone(), super::ints(), super::ints()).prop_map(move |(s, a, b)| wrap(name, json!([s, a, b]))),
-            list(name, vec(i, 2..=3).boxed()),
-        ]
+        "substr" => {
+            let subject = prop_oneof![3 => super::texts(8).prop_map(j), 2 => inner.clone()];
+            let idx = prop_oneof![4 => (-10i64..=10).prop_map(j), 1 => super::ints()];
+            prop_oneof![
+                3 => (subject.clone(), idx.clone()).prop_map(move |(s, a)| wrap(name, json!([s, a]))),
+                3 => (subject, idx.clone(), idx).prop_map(move |(s, a, b)| wrap(name, json!([s, a, b]))),
+                1 => list(name, vec(i, 2..=3).boxed()),
+            ]
+        }
         .boxed(),
         "var" => {
             let k = key_expr(&cfg.var_keys);
